@@ -420,6 +420,71 @@ def inst_validate(mo, mn):
     return Instance(f"_validate_rechunk[{mo},{mn}]", body, dict(old=mo, new=mn), unit="_validate_rechunk")
 
 
+def inst_rechunk_spec(kind):
+    """x.rechunk(spec, block_size_limit=L) advertises exactly what normalising the spec against x gives
+    (the real ArrayExpr.rechunk -> Rechunk.chunks on a symbolic node; oracle: the real normalize_chunks called
+    the way the property states it)."""
+    def body(E):
+        from . import catalog
+
+        w = catalog.W(E)
+        CUm = "dask_array._core_utils"
+        if kind == "dict-auto":
+            hi = 3
+        elif kind == "auto1":
+            hi = 6
+        else:
+            hi = None
+        blocks = (2,) if kind in ("auto1", "int", "minus1", "tuple") else (2, 2)
+        x = catalog.source(w, E, "x", blocks, hi=hi)
+        shape, cur = x.node.shape, x.node.chunks
+        limit = None
+        if kind == "auto1":
+            spec, limit = "auto", E.int("limit", 8, 96)
+        elif kind == "dict-auto":
+            spec, limit = {0: -1, 1: "auto"}, E.int("limit", 8, 128)
+        elif kind == "int":
+            c = E.int("c", 1)
+            E.assume(shape[0] <= 4 * c)
+            spec = c
+        elif kind == "minus1":
+            spec = -1
+        elif kind == "tuple":
+            spec = (tuple(E.int(f"t{i}", 1) for i in range(3)),)
+            E.assume(sum(spec[0]) == shape[0])
+        else:  # dict-none: keep axis 0, one block on axis 1
+            spec = {0: None, 1: -1}
+        for ns in w.ns.values():
+            if isinstance(ns.get("config"), Cfg):
+                ns["config"].d["array.chunk-size"] = 10 ** 9
+                ns["config"].d["array.chunk-size-tolerance"] = 1.25
+        out = x.node.rechunk(spec, block_size_limit=limit)
+        got = out.chunks
+        resolved = spec
+        if isinstance(spec, dict):
+            resolved = tuple(spec[i] if spec.get(i) is not None else cur[i] for i in range(len(shape)))
+        want = w.fn(CUm, "normalize_chunks")(resolved, shape, limit=limit, dtype=x.node.dtype, previous_chunks=cur)
+        E.observe("chunks", [list(c) for c in got])
+        E.ensure("rechunk-advertises-the-normalised-spec", EQ(tuple(map(tuple, got)), tuple(map(tuple, want))))
+        E.ensure("same-shape", AND(*[sum(a) == n for a, n in zip(got, shape)]))
+        if limit is not None:
+            big = x.node.dtype.itemsize
+            for a, c in enumerate(got):
+                big = big * sym_max_(*c)
+            # an 'auto' axis honours the requested byte limit (within the documented tolerance) unless fixed axes exceed it
+            if kind == "auto1":
+                E.ensure("auto-honours-block_size_limit", OR(big * 4 <= limit * 5, AND(*[v == 1 for v in got[0]])))
+
+    return Instance(f"rechunk_spec[{kind}]", body, dict(kind=kind), unit="ArrayExpr.rechunk + Rechunk.chunks + normalize_chunks",
+                    cost=6 if "auto" in kind else 1, wall_s=900)
+
+
+def sym_max_(*xs):
+    from symx.world import sym_max
+
+    return sym_max(*xs) if len(xs) > 1 else xs[0]
+
+
 def instances(tier):
     q = tier == "quick"
     out = []
@@ -449,4 +514,6 @@ def instances(tier):
         out.append(inst_through_expand(nd, axes))
     for mo, mn in ((1, 2), (2, 2), (3, 1)):
         out.append(inst_validate(mo, mn))
+    for k in ("auto1", "int", "minus1", "tuple", "dict-none") + (() if q else ("dict-auto",)):
+        out.append(inst_rechunk_spec(k))
     return out
